@@ -173,7 +173,7 @@ def run_tlc(tag, module, consts, invariants, table_path=None, timeout=900, extra
 
 # ------------------------------------------------------------------ engines --
 PAIR_INVS = ["TypeOK", "UniqueKeys", "EqIsExtensional", "AlgebraIsMath"]
-MICRO_INVS = ["Safe", "Bounded", "IdleWellFormed"]
+MICRO_INVS = ["Safe", "Bounded", "IdleWellFormed", "MicroRefinesMacro"]
 ALL_INVS = ["TypeOK", "Bounded", "UniqueKeys", "RefinesDict", "Conservation", "UncheckedAgrees", "DisjointAgrees"]
 
 
